@@ -10,7 +10,8 @@ random.Random(seed); the ops actually executed are recorded.
 
 modes
   plain   fault-free: all schedules of the stages' batches, node processes, job ends, submitter rounds; the user looks
-          (try-submit-jobs on the current stage) now and then and whenever nothing else can move
+          (try-submit-jobs on the current stage) now and then and whenever nothing else can move.  One pipeline in five
+          has stages of the local HPC type (the stage runs inside its own submission: nested hand-offs)
   faults  the same plus, per run, one or two of: squeue failing all retries of one round; a lifecycle (teardown/setup)
           command that cannot be STARTED (OSError out of subprocess); a submitter killed between the steps of a completion /
           a hand-off process killed; a batch lost (node failure / timeout: jobs without result, stage return code 1); every
@@ -99,8 +100,18 @@ def gen_pipeline(rng, mode):
     n = rng.choice([1, 2, 2, 2, 3, 3, 3, 4, 4])
     sc = {"stages": [gen_stage(rng, k, mode) for k in range(1, n + 1)], "cpus": rng.choice([1, 2, 4]),
           "cfgMode": "commands" if rng.random() < .8 else "files", "hook_rc": {"teardown": rng.choice([0, 0, 3])}}
+    if mode == "plain" and rng.random() < .2:
+        # stages run with the local HPC type (the whole stage inside its own submission: nested hand-offs); all or some
+        how = rng.choice(["all", "some"])
+        for st in sc["stages"]:
+            if how == "all" or rng.random() < .5:
+                st["local"] = True
+                st["groups"] = st["groups"][:1]
+                st["groups"][0]["procs"] = rng.choice([None, 1, 2])
+                for j in st["jobs"]:
+                    j["group"] = 0
     if mode == "faults":
-        kinds = ["squeue7", "squeue7", "forkfail", "forkfail", "kill", "kill", "nodelost", "dupnext", "sbatchfail", "killnext"]
+        kinds = ["squeue7"] * 4 + ["forkfail"] * 3 + ["kill"] * 2 + ["nodelost", "dupnext", "sbatchfail", "killnext"]
         plan = [rng.choice(kinds)]
         if rng.random() < .35:
             plan.append(rng.choice(["squeue7", "forkfail", "nodelost", "dupnext", "kill"]))
@@ -155,6 +166,17 @@ class Run:
         self.user_trysubmits = {}
         self.user_busy = 0
         self.stranded = None
+        self.focus = None
+        self.focus_weight = self.rng.choice([1, 4, 12, 40])
+
+    def descends(self, p, pid):
+        seen = set()
+        while p is not None and p.pid not in seen:
+            if p.pid == pid:
+                return True
+            seen.add(p.pid)
+            p = self.vc.procs.get(p.parent) if p.parent is not None else None
+        return False
 
     def bad(self, key, msg):
         if (key, msg) not in self.seen_keys:
@@ -176,6 +198,8 @@ class Run:
                     w = 6.0
                 if self.style == "slowext" and p.at[0] == "EXT" and str(p.at[1]).split(" ")[0] in ("squeue", "sbatch"):
                     w = 0.1
+                if self.focus is not None and self.descends(p, self.focus):
+                    w = max(w, 1.0) * self.focus_weight        # the process hit by a fault (and its children) runs ahead of the rest
                 m.append((w, ["step", p.pid]))
         for h, b in vc.slurm.items():
             if b["state"] == "pending":
@@ -406,14 +430,16 @@ class Run:
             # squeue fails all retries of the round of a try-submit-jobs that has not polled yet; preferably while
             # another batch of the same stage is still alive
             c = [p for p in vc.live() if p.kind == "trysubmit" and not self.pid_events(p.pid, "squeue") and not self.pid_events(p.pid, "summary")]
-            if c and rng.random() < (.5 if vc.live_batches() else .15):
+            if c and rng.random() < (.6 if vc.live_batches() else .04):
                 op = ["failext", rng.choice(c).pid, 7, "squeue"]
+                self.focus = op[1]
         elif kind == "forkfail":
             # the lifecycle command about to be started cannot be forked
             c = [p for p in vc.live() if p.kind in SUBMITTERS and p.at[0] == "EXT" and str(p.at[1]).startswith("hook ")
                  and getattr(p, "fork_fail", None) is None]
             if c and rng.random() < .6:
                 op = ["forkfail", rng.choice(c).pid, "hook"]
+                self.focus = op[1]
         elif kind == "kill":
             # a submitter dies between the steps of a completion (summary written ... hand-off ... demotion)
             c = [p for p in vc.live() if p.kind in SUBMITTERS and self.pid_events(p.pid, "summary")]
@@ -445,14 +471,17 @@ class Run:
             self.faults.append(kind)
         return op
 
-    def run(self):
+    def run(self, driver=None):
+        """`driver(run)`: a hand-written schedule (findings/ scripts) instead of the seeded exploration"""
         vc = self.vc
         cwd = os.getcwd()
         os.chdir(vc.workdir)
         vc.install()
         try:
             vc.create_pipeline()
-            if "ops" in self.case:
+            if driver is not None:
+                driver(self)
+            elif "ops" in self.case:
                 self.replay(self.case["ops"])
             else:
                 self.explore()
@@ -783,6 +812,9 @@ class SysPipeSuite(Suite):
             return []
         o = result["obs"]
         t = [f"mode.{case['mode']}", f"stages={len(case['sc']['stages'])}", f"cfg.{case['sc'].get('cfgMode')}"]
+        nl = sum(1 for st in case["sc"]["stages"] if st.get("local"))
+        if nl:
+            t.append("stages.local=all" if nl == len(case["sc"]["stages"]) else "stages.local=some")
         t.append("batches>=3" if o["batches"] >= 3 else "trivial.batches<3")
         if o["complete"]:
             t.append("pipeline.complete")
